@@ -406,8 +406,11 @@ Fixpoint run_rw (fx : fixes) (root : Z) (st : list stmt) (e : env) (pl : payload
                         end
           | None => RErr
           end
-      | SErase => match erase_op pl root with
-                  | Some pl' => run_rw fx root rest e pl'
+      | SErase => match find_op pl root with          (* erasing an operation that is gone already raises *)
+                  | Some _ => match erase_op pl root with
+                              | Some pl' => run_rw fx root rest e pl'
+                              | None => RErr
+                              end
                   | None => RErr
                   end
       end
